@@ -160,6 +160,8 @@ def main(tier, seed):
     t0 = time.time()
     depth = 5 if tier == "quick" else 7
     hs = R.histories(depth)
+    # plus the disabled words that keep the autonomous / test selection bit set, one level shallower
+    hs = hs + [h for h in R.histories(depth - 1, alphabet="datxef", boot="datxef") if ("e" in h or "f" in h)]
     items = []
     L = layouts(tier)
     for lay in L:
